@@ -389,7 +389,11 @@ def _dummy_phi_rules(ck):
     for nd in cfg.nodes:
         if nd.kind != "stmt" or nd is binds[0] or not cfg.can_reach(binds[0].id, nd.id):
             continue
-        if any(isinstance(x, ast.Name) and x.id == val for x in ast.walk(nd.ast)):
+        # the uses that matter: the value written into the rebuilt block (inside a dict display / an AssignBlock(...) argument)
+        writes_it = any(isinstance(d_, (ast.Dict, ast.DictComp)) and any(isinstance(x, ast.Name) and x.id == val for x in ast.walk(d_)) for d_ in ast.walk(nd.ast)) or \
+            any(isinstance(c_, ast.Call) and callee_attr(c_) in ("AssignBlock", "ExprAssign") and any(isinstance(x, ast.Name) and x.id == val for x in ast.walk(c_))
+                for c_ in ast.walk(nd.ast))
+        if writes_it:
             uses.append(nd)
     ck.need(uses, "DelDummyPhi.del_dummy_phi: no use of the class value `%s` found" % val)
     for nd in uses:
@@ -402,6 +406,12 @@ def _dummy_phi_rules(ck):
             if n7.kind != "test" or lab is not False:
                 return False
             t7 = norm(n7.ast)
+            if isinstance(n7.ast, ast.Name):
+                # a boolean temporary standing for "is a call"
+                from sa.astutil import Resolver as _R7
+                d7 = _R7(fn).unique_def(n7.ast.id)
+                if d7 is not None and norm(d7) in ("%s.is_op() and %s.op.startswith('call')" % (val, val), "is_function_call(%s)" % val):
+                    return True
             return t7 in ("%s.is_op()" % val, "%s.op.startswith('call')" % val, "is_function_call(%s)" % val)
         nocall = _und7(cfg, lambda n7: False, edge_ok=not_call_edge, start=binds[0].id, targets=[nd.id]) is None
         ck.ob("R7", "del_dummy_phi:value-without-memory", deep, m.where(nd.ast),
